@@ -463,6 +463,8 @@ func init() {
 						continue
 					}
 					r.ok(key, fnName(fn), c.pos(fn.Pos()), "dispatches on normBits1Hit before any use of the postings bitmap")
+				} else if ok, why := callersDispatchOneHit(c, fn, postingsLoads); ok {
+					r.ok(key, fnName(fn), c.pos(fn.Pos()), "helper for the general encoding: "+why)
 				} else {
 					r.bad(key, fnName(fn), c.pos(postingsLoads[0].Pos()), "uses PostingsList.postings without consulting normBits1Hit: 1-hit encoded lists would be treated as empty")
 				}
@@ -487,7 +489,7 @@ func init() {
 				if !ok || (bin.Op != token.LSS && bin.Op != token.GEQ) {
 					continue
 				}
-				if p, ok := bin.X.(*ssa.Parameter); !ok || p != fn.Params[2] {
+				if p, ok := bin.X.(*ssa.Parameter); !ok || p.Type().String() != "uint64" {
 					continue
 				}
 				if ld, ok := bin.Y.(*ssa.UnOp); ok && strings.HasSuffix(accessPath(ld.X), ".footer.numDocs") {
@@ -529,7 +531,7 @@ func init() {
 				var vblk *ssa.BasicBlock
 				for _, b := range fn.Blocks {
 					for _, ins := range b.Instrs {
-						if call, ok := ins.(*ssa.Call); ok && call.Call.Value == ssa.Value(fn.Params[3]) {
+						if call, ok := ins.(*ssa.Call); ok && isFuncParamOf(call.Call.Value, fn) {
 							vblk = b
 						}
 					}
@@ -565,10 +567,32 @@ func init() {
 			}
 			// (b) keepGoing
 			var vcall *ssa.Call
-			for _, b := range fn.Blocks {
-				for _, ins := range b.Instrs {
-					if call, ok := ins.(*ssa.Call); ok && call.Call.Value == ssa.Value(fn.Params[3]) {
-						vcall = call
+			// the visiting loop is in visitDocument or in a helper it hands the visitor to
+			visitFns := []*ssa.Function{fn}
+			for _, sc := range staticCallees(fn) {
+				if c.inRoot(sc) && sc.Blocks != nil {
+					visitFns = append(visitFns, sc)
+					for _, sc2 := range staticCallees(sc) {
+						if c.inRoot(sc2) && sc2.Blocks != nil {
+							visitFns = append(visitFns, sc2)
+						}
+					}
+				}
+			}
+			for _, vf := range visitFns {
+				for _, b := range vf.Blocks {
+					for _, ins := range b.Instrs {
+						call, ok := ins.(*ssa.Call)
+						if !ok {
+							continue
+						}
+						p, isParam := call.Call.Value.(*ssa.Parameter)
+						if !isParam || p.Parent() != vf {
+							continue
+						}
+						if sig, ok := p.Type().Underlying().(*types.Signature); ok && sig.Results().Len() == 1 && isBoolType(sig.Results().At(0).Type()) {
+							vcall = call
+						}
 					}
 				}
 			}
@@ -711,6 +735,81 @@ func errReturnReachableAfter(b *ssa.BasicBlock, i int) *ssa.Return {
 		return nil
 	}
 	return check(b, i+1)
+}
+
+// isFuncParamOf: v is a parameter of fn that has a function type (a visitor callback).
+func isFuncParamOf(v ssa.Value, fn *ssa.Function) bool {
+	p, ok := v.(*ssa.Parameter)
+	if !ok || p.Parent() != fn {
+		return false
+	}
+	_, isSig := p.Type().Underlying().(*types.Signature)
+	return isSig
+}
+
+// callersDispatchOneHit: fn reads the postings bitmap of a list it is handed
+// (receiver or parameter) without testing normBits1Hit itself; that is fine
+// when every call of fn sits on the normBits1Hit == 0 edge of a test of the
+// same list in the caller, or in a function that establishes the list.
+func callersDispatchOneHit(c *Ctx, fn *ssa.Function, loads []*ssa.UnOp) (bool, string) {
+	// which parameter is the list
+	var listParam *ssa.Parameter
+	for _, ld := range loads {
+		fa, ok := ld.X.(*ssa.FieldAddr)
+		if !ok {
+			return false, ""
+		}
+		p, ok := fa.X.(*ssa.Parameter)
+		if !ok || (listParam != nil && listParam != p) {
+			return false, ""
+		}
+		listParam = p
+	}
+	sites := c.callsTo(fn)
+	if listParam == nil || len(sites) == 0 {
+		return false, ""
+	}
+	establishers := map[string]bool{"(*PostingsList).read": true, "(*Dictionary).postingsListInit": true}
+	for _, site := range sites {
+		caller := site.Parent()
+		if establishers[fnName(caller)] {
+			continue
+		}
+		arg := argFor(site.Common(), listParam)
+		dom := false
+		for _, b := range caller.Blocks {
+			ifi, ok := b.Instrs[len(b.Instrs)-1].(*ssa.If)
+			if !ok {
+				continue
+			}
+			bin, ok := ifi.Cond.(*ssa.BinOp)
+			if !ok || (bin.Op != token.NEQ && bin.Op != token.EQL) {
+				continue
+			}
+			ld, isLd := bin.X.(*ssa.UnOp)
+			if k, isK := constUint(bin.Y); !isK || k != 0 || !isLd {
+				continue
+			}
+			fa, isFa := ld.X.(*ssa.FieldAddr)
+			if !isFa {
+				continue
+			}
+			if _, f := fieldAddrInfo(fa); f == nil || f.Name() != "normBits1Hit" || (fa.X != arg && !sameObject(fa.X, arg)) {
+				continue
+			}
+			z := b.Succs[1]
+			if bin.Op == token.EQL {
+				z = b.Succs[0]
+			}
+			if len(z.Preds) == 1 && (z == site.Block() || z.Dominates(site.Block())) {
+				dom = true
+			}
+		}
+		if !dom {
+			return false, ""
+		}
+	}
+	return true, fmt.Sprintf("each of its %d call site(s) is on the normBits1Hit == 0 edge of a test of the same list", len(sites))
 }
 
 // fallibleOrigin: v is (a copy through a local object's field of) result #i of a
